@@ -25,7 +25,7 @@ def gen(tier, seed):
                 da = DIMS[k % len(DIMS)]
                 db = da if op in ("add", "sub", "lt", "le", "gt", "ge", "eq") else DIMS[(k * 3 + 1) % len(DIMS)]
                 k += 1
-                fn = "%s_%s_%s%s_%d" % (op, pairing, sa, sb, k)
+                fn = "h_%s_%s_%s%s_%d" % (op, pairing, sa, sb, k)
                 pre = PRE2S if op in ("add", "sub", "mul", "lt", "le", "gt", "ge", "eq") else "pre: -1e6 < a < 1e6 and 1e-3 < b < 1e6" if pairing != "nv" or op != "div" else PRE2
                 if op == "div":
                     pre = "pre: -1e6 < a < 1e6 and 1e-3 < b < 1e6"
@@ -37,18 +37,18 @@ def gen(tier, seed):
         for us in ("B", "D") if tier == "quick" else "ABCDEFGHIJK":
             k += 1
             d = DIMS[k % len(DIMS)]
-            fn = "%s_%s_%d" % (op, us, k)
+            fn = "h_%s_%s_%d" % (op, us, k)
             lines += ["def %s(a: float) -> bool:" % fn, '    """', "    pre: -1e6 < a < 1e6", "    post: _", '    """', "    return unop(%r, a, %r, %r)" % (op, us, d), ""]
             conds.append({"fn": fn, "what": "unary %s (system %s, dim %s)" % (op, us, d), "sig": "c05-%s" % op, "structure": us})
     for n in (2, 3, -1, -2, 0, 1):
         us = "BCDEF"[abs(n) % 5]
         d = DIMS[(n + 5) % len(DIMS)]
-        fn = "pow_%s_%s" % (str(n).replace("-", "m"), us)
+        fn = "h_pow_%s_%s" % (str(n).replace("-", "m"), us)
         lines += ["def %s(a: float) -> bool:" % fn, '    """', "    pre: 1e-3 < a < 1e3", "    post: _", '    """', "    return powint(a, %d, %r, %r)" % (n, us, d), ""]
         conds.append({"fn": fn, "what": "value ** %d (system %s, dim %s)" % (n, us, d), "sig": "c05-pow", "structure": us, "timeout": 90})
     # error clauses: symbolic dimension vectors
     for op in ("add", "sub", "mod", "lt", "le", "gt", "ge"):
-        fn = "mismatch_%s" % op
+        fn = "h_mismatch_%s" % op
         lines += ["def %s(a: float, b: float, s1: int, t1: int, q1: int, s2: int, t2: int, q2: int) -> bool:" % fn, '    """',
                   "    pre: 1e-3 < a < 1e3 and 1e-3 < b < 1e3", "    pre: -3 <= s1 <= 3 and -3 <= t1 <= 3 and -3 <= q1 <= 3 and -3 <= s2 <= 3 and -3 <= t2 <= 3 and -3 <= q2 <= 3",
                   "    pre: (s1, t1, q1) != (s2, t2, q2)", "    post: _", '    """',
@@ -57,7 +57,7 @@ def gen(tier, seed):
                       "structure": "A/B", "timeout": 120})
     fracs = [(1, 2), (1, 3), (2, 3), (-1, 2), (3, 2), (2, 1)] if tier == "quick" else [(n, d) for n in range(-3, 4) for d in (1, 2, 3)]
     for (num, den) in fracs:
-        fn = "pow_fraction_%s_%d" % (str(num).replace("-", "m"), den)
+        fn = "h_pow_fraction_%s_%d" % (str(num).replace("-", "m"), den)
         lines += ["def %s(a: float, s: int, t: int, q: int) -> bool:" % fn, '    """',
                   "    pre: 1e-3 < a < 1e3 and -3 <= s <= 3 and -3 <= t <= 3 and -3 <= q <= 3", "    post: _", '    """',
                   "    return pow_fraction(a, %d, %d, 'B', (s, t, q))" % (num, den), ""]
